@@ -368,21 +368,31 @@ impl PreferenceManager {
         self.set_files_based_on_changes(&prefs)?;
         self.user_prefs = prefs;
 
-        // set computed values for BLOCK_SEPARATORS and DECIMAL_SEPARATORS (a little messy about the language due immutable and mutable borrows)
-        let language = pref_value_to_string(self.user_prefs.prefs.get("Language").unwrap_or(&DEFAULT_LANG));
+        // set computed values for BLOCK_SEPARATORS and DECIMAL_SEPARATORS
+        let language = self.language_in_use();
         self.set_separators(&language)?;
         
         return Ok( () );
+    }
+
+    /// The language that selects the speech files and the number separators: the value of "Language" or,
+    /// when that is "Auto", the language given with "LanguageAuto" ("en" as long as none was given).
+    fn language_in_use(&self) -> String {
+        let language = self.pref_to_string("Language");
+        if language != "Auto" {
+            return language;
+        }
+        let language_auto = self.pref_to_string("LanguageAuto");
+        return if language_auto.is_empty() || language_auto == "Auto" || language_auto == NO_PREFERENCE {"en".to_string()} else {language_auto};
     }
 
     fn set_all_files(&mut self, rules_dir: &Path) -> Result<()> {
         // try to find ./Rules/lang/style.yaml and ./Rules/lang/style.yaml
         // we go through a series of fallbacks -- we try to maintain the language if possible
 
-        let language = self.pref_to_string("Language");
-        let language = if language.as_str() == "Auto" {"en"} else {language.as_str()};       // avoid 'temp value dropped while borrowed' error
+        let language = self.language_in_use();
         let language_dir = rules_dir.to_path_buf().join("Languages");
-        self.set_speech_files(&language_dir, language, None)?;  // also sets style file
+        self.set_speech_files(&language_dir, &language, None)?;  // also sets style file
 
         let braille_code = self.pref_to_string("BrailleCode");
         let braille_dir = rules_dir.to_path_buf().join("Braille");
@@ -728,24 +738,26 @@ impl PreferenceManager {
         }
 
         // debug!("Setting ({}) {} to '{}'", if is_user_pref {"user"} else {"sys"}, key, value);
+        let current_decimal_separator = match self.user_prefs.prefs.get("DecimalSeparator") {
+            Some(value) => pref_value_to_string(value),
+            None => "Auto".to_string(),
+        };
+        let current_language = self.language_in_use();
         if is_user_pref {
-            // a little messy about the DecimalSeparator due immutable and mutable borrows
-            let current_decimal_separator = match self.user_prefs.prefs.get("DecimalSeparator") {
-                Some(value) => pref_value_to_string(value),
-                None => "Auto".to_string(),
-            };
-            let is_decimal_separators_changed = key == "DecimalSeparator" && current_decimal_separator != value;
-            let is_language_changed = key == "Language" &&
-                    pref_value_to_string(self.user_prefs.prefs.get("Language").unwrap_or(&DEFAULT_LANG)) != value;
             self.user_prefs.prefs.insert(key.to_string(), Yaml::String(value.to_string()));
             self.api_set_user_prefs.insert(key.to_string(), Yaml::String(value.to_string()));
-            // a language change matters even when the decimal separator is given: the country can add a block separator (see set_separators)
-            if is_decimal_separators_changed || is_language_changed {
-                let language = pref_value_to_string(self.user_prefs.prefs.get("Language").unwrap_or(&DEFAULT_LANG));
-                self.set_separators(&language)?;
-            }
         } else {
             self.api_prefs.prefs.insert(key.to_string(), Yaml::String(value.to_string()));
+        }
+
+        // The separators follow the language in use, whether it was given with "Language" or (for "Language: Auto") with "LanguageAuto",
+        // and whichever of the two preference maps holds the changed value.
+        // A language change matters even when the decimal separator is given: the country can add a block separator (see set_separators)
+        let is_decimal_separators_changed = key == "DecimalSeparator" && current_decimal_separator != value;
+        let language = self.language_in_use();
+        let is_language_changed = (key == "Language" || key == "LanguageAuto") && current_language != language;
+        if is_decimal_separators_changed || is_language_changed {
+            self.set_separators(&language)?;
         }
         return Ok( () );
     }
@@ -753,8 +765,8 @@ impl PreferenceManager {
     fn reset_files_from_preference_change(&mut self, changed_pref: &str, changed_value: &str) -> Result<()> {       
         if changed_pref == "Language" && changed_value == "Auto" {
             // Language must have had a non-Auto value -- set LanguageAuto to old value so (probable) next change to LanguageAuto works well
-            self.api_prefs.prefs.insert("LanguageAuto".to_string(),
-                                self.api_prefs.prefs.get("Language").unwrap_or(&DEFAULT_LANG).clone() );
+            // (the old value is in the user prefs unless the api prefs override it; the files of that language stay in use)
+            self.api_prefs.prefs.insert("LanguageAuto".to_string(), Yaml::String(self.language_in_use()) );
             return Ok( () );
         }
 
@@ -765,9 +777,8 @@ impl PreferenceManager {
                 self.set_speech_files(&language_dir, changed_value, None)?
             },
             "SpeechStyle" => {
-                let language = self.pref_to_string("Language");
-                let language = if language.as_str() == "Auto" {"en"} else {language.as_str()};       // avoid 'temp value dropped while borrowed' error
-                self.set_style_file(&language_dir, language, changed_value)?
+                let language = self.language_in_use();
+                self.set_style_file(&language_dir, &language, changed_value)?
             },
             "BrailleCode" => {
                 let braille_dir = self.rules_dir.to_path_buf().join("Braille");
